@@ -209,6 +209,16 @@ func (s fsSpec) materialise(path string, id *int) error {
 			b[i] = byte(i*7 + i/251)
 		}
 		return os.WriteFile(path, b, 0o644)
+	case "Z":
+		// two identical full chunks (a sparse / zero-filled file)
+		return os.WriteFile(path, make([]byte, 2*256*1024), 0o644)
+	case "ZA":
+		// chunks A B A: the last chunk repeats the first
+		b := make([]byte, 3*256*1024)
+		for i := 256 * 1024; i < 2*256*1024; i++ {
+			b[i] = byte(i*13 + i/255)
+		}
+		return os.WriteFile(path, b, 0o644)
 	case "Lr":
 		return os.Symlink("./../a/", path) // not in cleaned form on purpose: the target text is carried verbatim
 	case "La":
@@ -432,6 +442,9 @@ func runC18(r *core.Run) {
 		fsCase{Root: fsSpec{Kind: "D", LongNames: true, Children: []fsSpec{{Kind: "F"}, {Kind: "E"}, {Kind: "F"}, {Kind: "Lr"}}}},
 		fsCase{Root: fsSpec{Kind: "D", NGen: 1030, NameLen: 255, LongNames: true, Children: []fsSpec{{Kind: "F"}, {Kind: "F"}, {Kind: "E"}, {Kind: "F"}}}},
 		fsCase{Root: fsSpec{Kind: "D", NGen: 1100, NameLen: 254, LongNames: true, Children: []fsSpec{{Kind: "F"}, {Kind: "F"}}}},
+		// files whose chunks repeat
+		fsCase{Root: fsSpec{Kind: "Z"}}, fsCase{Root: fsSpec{Kind: "ZA"}},
+		fsCase{Root: fsSpec{Kind: "D", Children: []fsSpec{{Kind: "Z"}, {Kind: "F"}, {Kind: "ZA"}}}},
 		// long symlink targets
 		fsCase{Root: fsSpec{Kind: "LL"}}, fsCase{Root: fsSpec{Kind: "LX"}},
 		fsCase{Root: fsSpec{Kind: "D", Children: []fsSpec{{Kind: "LL"}, {Kind: "F"}, {Kind: "LX"}, {Kind: "D", Children: []fsSpec{{Kind: "LL"}}}}}},
